@@ -186,11 +186,15 @@ func (muxerSlice) Gen(r *rand.Rand, _ int, tier string) ([]string, []string) {
 		}
 	}
 	for i, t := range tracks {
-		if t.codec == "h264" && r.Intn(5) == 0 && !exactMinus10 {
-			if pts, dts, ok := bfPlan(t.nextPTS, 2000); ok {
+		if (t.codec == "h264" || t.codec == "h265") && r.Intn(5) == 0 && !exactMinus10 {
+			plan := bfPlan
+			if t.codec == "h265" {
+				plan = bf5Plan
+			}
+			if pts, dts, ok := plan(t.nextPTS, 2000); ok {
 				t.bf, t.bfPTS, t.bfDTS = true, pts, dts
 				t.frame = 3000
-				tags = append(tags, "h264-reordering")
+				tags = append(tags, t.codec+"-reordering")
 				ops[1+i] += " bf=1" // ops[0] = start, ops[1..] = track lines
 			}
 		}
@@ -267,7 +271,7 @@ func (muxerSlice) Gen(r *rand.Rand, _ int, tier string) ([]string, []string) {
 		if t.bf {
 			// H264 with frame reordering: decode order and times come from the planned pattern
 			i := t.count
-			k := i % len(bfPattern)
+			k := i % bfPatternLen(t.codec)
 			ra := k == 0
 			par := 0
 			if ra {
@@ -280,7 +284,7 @@ func (muxerSlice) Gen(r *rand.Rand, _ int, tier string) ([]string, []string) {
 			if ntp < 0 {
 				ntp = 0
 			}
-			size := mxH264Sizes(variant, bfBuildAU(par, k, pay))
+			size := mxH264Sizes(variant, bfBuildAUFor(t.codec, par, k, pay))
 			op = fmt.Sprintf("w t=%d pts=%d dts=%d ntp=%d ra=%s pic=1 par=%d pays=%d sizes=%d fill=0 bf=%d", best, pts, t.bfDTS[i], ntp, b01(ra), par, pay, size, k)
 			t.count++
 			if t.count < len(t.bfDTS) {
